@@ -151,7 +151,8 @@ class Distancevel(OrderParameter):
         """
         delta = system.pos[self.index[1]] - system.pos[self.index[0]]
         if self.periodic and system.box is not None:
-            delta = pbc_dist_coordinate(delta, system.box)
+            box = np.array(system.box[:3])
+            delta = pbc_dist_coordinate(delta, box)
         lamb = np.sqrt(np.dot(delta, delta))
         # Add the velocity as an additional collective variable:
         delta_v = system.vel[self.index[1]] - system.vel[self.index[0]]
